@@ -42,8 +42,15 @@ def main(argv):
 
     def _give_up():
         print('HARNESS-ERROR wall-clock limit reached (a simulated thread is probably blocked in a real call)', flush=True)
+        import multiprocessing
+        for ch in multiprocessing.active_children():      # never leave workers behind
+            try:
+                ch.kill()
+            except Exception:
+                pass
         os._exit(3)
-    limit = float(os.environ.get('VERIF_WALL_S', '0')) or (common.budget_s(900 if argv[2] != 'thorough' else 3600) + 1500)
+    limit = float(os.environ.get('VERIF_WALL_S', '0')) or \
+        (common.budget_s(900 if argv[2] != 'thorough' else 3600) + (3000 if argv[2] != 'thorough' else 9000))
     wd = threading.Timer(limit, _give_up)
     wd.daemon = True
     wd.start()
